@@ -81,6 +81,10 @@ claim("C18", "static analysis: comparison of the resolved operator tables (token
       "Decides the structural part of 'usual precedence and associativity' and of operator evaluation: the binary operator table has the six levels of the language in order with the defined operators on each, each Operation is bound to the stdlib function and result type that define it and is never rewritten, unary - and ! build the defined operation over a term; parseBinaryOps looks the next token up in the first level only, parses both operands with the strict tail of its table, gives each node the looked-up operation, the accumulated left operand and a right operand parsed after the operator; the conditional parses condition/true/false in source order behind ? and :; BinaryOpExpr/UnaryOpExpr.Value apply the node's own Impl to the operands' values in order; ConditionalExpr.Value returns the true result on the True() branch of the condition and the false result on the other. Not decided: the arithmetic itself (go-cty), templates, splats, for-expressions, index/attribute semantics, and the error-diagnostic clause - these quantify over values and have no structural necessary condition we can check soundly.",
       TRUST, "DESIGN.md §3 R19, §4 C18")
 
+claim("C20", "static analysis: write-effect analysis over the call-graph closure of hclwrite.format (which fields of which objects the formatter may store to), and SSA shape/provenance rules on the serialiser Tokens.WriteTo and on writerTokens",
+      "Decides the structural part of 'formatting changes nothing but spaces' and of byte-for-byte serialisation: in every function reachable from hclwrite.format the only store through a *Token is to SpacesBefore, no token-slice element is replaced, no token slice is appended to or copied over, no byte of Token.Bytes is written, and token bytes leave the analysed set only towards listed pure readers; Tokens.WriteTo writes, per token in slice order, a run of the constant ' ' counted down from SpacesBefore and then the whole Bytes; writerTokens builds token i from native token i with the same Type, a full private copy of its Bytes, SpacesBefore = Range.Start.Byte - previous Range.End.Byte, ret[i] = &tokBuf[i]. Not decided: that the scanner's tokens tile the input (C17), idempotence of Format, parse/decode equality of the formatted file, and every programmatic-edit clause (SetAttribute/RemoveBlock ... over edit histories) - those quantify over source texts and edit sequences.",
+      TRUST, "DESIGN.md §3 R20, §4 C20")
+
 for i in range(1, 21):
     pid = "C%02d" % i
     if pid not in CLAIMS and pid not in NA:
